@@ -10,6 +10,7 @@ import Driver.Util
     dt    <table> <code>                 data type code table row + reverse lookup
     codec <e> <w> <v>                    byte codec
     fdec  <f32|f64|i64> <pattern>        float classes used by the checks
+    fromhdr <src> <dst> <e> <hex>        Dst.from_header(src, check=False): provenance of EVERY field
     fhpix <f32|f64> <ndim> <p0,..,p7>    pixdim of from_header(src) for another class of the same float width
 -/
 namespace Nb.Drv.C10
@@ -174,6 +175,32 @@ def handle : List String → String
           toHex bs ++ " " ++ toString (dec e bs) ++ " " ++ toString (dec e.swap bs) ++ " " ++
             toString (toInt w (dec e bs)) ++ " " ++ toString (ofInt w (toInt w (dec e bs)))
       | _, _, _ => "bad-op"
+  | ["fromhdr", scls, dcls, e, hex] =>
+      match Gen.classOf? scls, Gen.classOf? dcls, parseEArg e, parseHex? hex with
+      | some cs, some cd, .code e, some bs =>
+          match Gen.layoutOf? cs.layout, Gen.layoutOf? cd.layout with
+          | some Ls, some Ld =>
+            if bs.length ≠ Ls.size ∨ cs.name = cd.name then "bad-op" else
+            let vals := parse Ls e bs
+            let dim := getInts Ls vals "dim"
+            let pix := getRaw Ls vals "pixdim"
+            let code := (getInts Ls vals "datatype").getD 0 0
+            let nifti := !cd.singleMagic.isEmpty
+            let dt? : Option (Int × Nat) := match dtFind cs.dtTable code with
+              | none => none
+              | some r => if r.isz = 0 then none else (dtCodeOf cd.dtTable r.kind r.isz).map (fun k => (k, 8 * r.isz))
+            match dt? with
+            | none => "ERR:HeaderDataError"
+            | some (k, bp) =>
+              let magic := if nifti then toHex ((if cd.isSingle then cd.singleMagic else cd.pairMagic).map UInt8.ofNat)
+                           else "-"
+              let prov := Ld.fields.map (fun fd => match provOf Ls nifti fd with
+                | .copied => 'c' | .default => 'd' | .overwritten => 'o')
+              "dt=" ++ toString k ++ "/" ++ toString bp ++ " dim=" ++ showList (setShapeDim (getShape dim)) ++
+                " pix=" ++ String.ofList (pixTags cs.pixFmt dim pix) ++ " magic=" ++ magic ++
+                " prov=" ++ String.ofList prov
+          | _, _ => "bad-op"
+      | _, _, _, _ => "bad-op"
   | ["fhpix", fmt, nd, pix] =>
       match nd.toNat?, parseNatList? pix with
       | some nd, some pix =>
